@@ -226,6 +226,22 @@ func (this *DefaultInputBitStream) readFromInputStream(count int) (int, error) {
 
 	this.read += (int64(this.position << 3))
 	size, err := this.is.Read(this.buffer[0:count])
+
+	// A reader may legitimately return fewer bytes than requested (pipe, socket, ...).
+	// The buffer is consumed by words of 64 bits and an incomplete last word means
+	// 'end of stream': keep reading until a multiple of 8 bytes is available
+	// (or the stream is exhausted or fails).
+	for err == nil && size > 0 && size&7 != 0 && size < count {
+		var n int
+		n, err = this.is.Read(this.buffer[size:count])
+
+		if n <= 0 {
+			break
+		}
+
+		size += n
+	}
+
 	this.position = 0
 
 	if size <= 0 {
